@@ -91,7 +91,8 @@ VStr(a) == CASE a.t = "int" -> IntStr(a.v)
 (* evaluation state *)
 
 St0(limits) == [out |-> <<>>, calls |-> 0, depth |-> 0, maxdepth |-> 0, maxrec |-> 0,
-                maxsearch |-> 0, viol |-> "none", taint |-> FALSE, fuel |-> 4000, lim |-> limits]
+                maxsearch |-> 0, viol |-> "none", taint |-> FALSE, fuel |-> 4000, lim |-> limits,
+                fwd |-> [x \in {} |-> Nil]]      \* forward declarations fulfilled so far: id -> closure
 Unlimited == [calls |-> NoLimit, depth |-> NoLimit, rec |-> NoLimit, search |-> NoLimit]
 
 Viol(st, k) == IF st.viol = "none" THEN [st EXCEPT !.viol = k] ELSE st
@@ -231,6 +232,17 @@ EvDecls(decls, env, st) ==
          IN IF d.k = "let"
               THEN LET r == Ev(d.e, env, st, FALSE)
                    IN EvDecls(Tail(decls), Bind(env, d.n, r.r), r.st)
+            ELSE IF d.k = "fwd"
+              THEN \* forward fn: the name denotes a cell that a later declaration of the same
+                   \* name and signature fills
+                   EvDecls(Tail(decls), Bind(env, d.n, [t |-> "fwd", id |-> d.id, sig |-> d.sigtxt]), st)
+            ELSE IF d.k = "fn" /\ d.n \in DOMAIN env /\ env[d.n].t = "fwd"
+                    /\ env[d.n].id \notin DOMAIN st.fwd /\ env[d.n].sig = d.sigtxt
+              THEN LET ds == EvDefaults(d.ps, 1, env, st, <<>>)
+                       clo == MkClo(d.ps, ds.r, d.decls, d.ret, env, d.n)
+                       id == env[d.n].id
+                   IN EvDecls(Tail(decls), env,
+                              [ds.st EXCEPT !.fwd = [x \in DOMAIN @ \cup {id} |-> IF x = id THEN clo ELSE @[x]]])
             ELSE IF d.k = "fn"
               THEN LET ds == EvDefaults(d.ps, 1, env, st, <<>>)
                        clo == MkClo(d.ps, ds.r, d.decls, d.ret, env, IF d.ovl THEN "" ELSE d.n)
@@ -341,6 +353,9 @@ EvCall(e, env, st, tail) ==
               ELSE IF f \in DOMAIN env /\ env[f].t = "clo"
                 THEN IF tail /\ env[f].rec THEN R(TailV(a.r), a.st)
                      ELSE Apply(env[f], a.r, a.st)
+              ELSE IF f \in DOMAIN env /\ env[f].t = "fwd"
+                THEN IF env[f].id \in DOMAIN a.st.fwd THEN Apply(a.st.fwd[env[f].id], a.r, a.st)
+                     ELSE R(Nil, Taint(a.st))        \* excluded statically (XrScope.StaticCheck)
               ELSE IF f = "map_arr"       \* xs.map(g).to_array()
                 THEN LET m == MapApply(a.r[2], a.r[1].v, a.st, <<>>)
                      IN IF Dead(m.st) THEN R(Nil, m.st)
